@@ -145,6 +145,28 @@ def cases(rng, tier):
         l0, n0, _s = L.rand_script(rng, hist=hist, names=nm)
         l1, n1, _s = L.rand_script(rng, hist=hist, names=nm)
         out.append(hist_case("pair-shared-names", "rand+rand", [(l0, n0), (l1, n1)], rng.sample(pair_progs, 2), None))
+    # 4c. beyond the small bounds: handlers nested 17 / 20 / 40 levels deep (anything kept per indentation level, per nesting depth),
+    # twice from one tree and after another deep script; and pairs of same-shape scripts whose first constant is a string of
+    # 255 / 256 / 300 / 70 000 bytes at the same file address (anything remembered per address / length across scripts)
+    def nested(depth, tag):
+        # built from the inside out: `if <d> then ... end if` = 41 d 95 <len of the rest + 3>
+        inner = bytes([0x41, tag % 100 + 1, 0x52, 0x00])                                     # set x = n
+        for d in range(depth):
+            inner = bytes([0x41, 1 + d % 100, 0x95]) + (len(inner) + 3).to_bytes(2, "big") + inner
+        return L.build_lscr([dict(name=0, args=[], locals=[1], code=inner + b"\x01")]), L.build_lnam([b"deep", b"x"])
+    deep = [nested(17, 1), nested(20, 2), nested(40, 3), nested(16, 4)]
+    for i, (l, n) in enumerate(deep):
+        out.append(hist_case("scale-deep", f"deep{i}", [(l, n)], ["p0,l,l", "p0,l,j,l", "p0,j,l,j", "p0,l,p0,l"], None, snaps=["p0"]))
+    for a in range(len(deep)):
+        b = (a + 1) % len(deep)
+        out.append(hist_case("scale-deep-pair", f"deep{a}+deep{b}", [deep[a], deep[b]], pair_progs, None))
+    def with_string(nbytes, fill):
+        consts = [("s", bytes([fill]) * nbytes), ("i", 5)]
+        code = bytes([0x44, 0x00, 0x42, 0x01, 0x57, 0x01, 0x01])
+        return L.build_lscr([dict(name=0, args=[], locals=[], code=code)], consts), L.build_lnam([b"h", b"put"])
+    for nb in (255, 256, 300, 4000) + ((70000,) if tier != "quick" else ()):
+        sa, sb = with_string(nb, 0x41), with_string(nb, 0x42)
+        out.append(hist_case("scale-long-strings", f"str{nb}", [sa, sb], pair_progs, None))
     cases.hist = hist
     return out
 
@@ -270,6 +292,15 @@ def oracle(case, io):
     fresh = {}
     for i in range(ns):
         fresh[i] = (json.loads(io[2 * i]), json.loads(io[2 * i + 1]))
+    if case["kind"] == "scale-long-strings":
+        # the "fresh" generations of one case run in ONE worker process, one after the other: for these pairs what each script must
+        # print is known from the way it was built (a run of one letter), whatever ran before it
+        nb = int(case["spec"]["label"][3:])
+        for i, letter in ((0, "A"), (1, "B")):
+            for lang in (0, 1):
+                t = fresh[i][lang]
+                if t != "error" and (letter * nb not in t or ("B" if letter == "A" else "A") * 8 in t):
+                    return f"script {i} (a {nb}-byte string of '{letter}') is printed with another script's text"
     for li, line in enumerate(case["lines"]):
         t = line.split()
         if t[1] != "hist" or io[li] is None:
